@@ -168,8 +168,8 @@ def run(prop, tier):
             cli_checked += 1
             want = o["configs"]["merged"].get("formatted")
             got = pr.stdout.strip()
-            if want == "[]" and got == "":
-                got = "[]"          # the CLI prints nothing for a nil result
+            if want in ("[]", "Ok") and got == "":
+                got = want          # the CLI prints nothing for a nil or Ok result
             if want is not None and got != want:
                 check.violation({"property": prop, "rule": "CliAgrees", "program": r["src"], "history": r["history"],
                                  "quiv_run": got, "expected": want}, name="CliAgrees", key="CliAgrees:" + r["group"],
